@@ -411,9 +411,13 @@ type path struct {
 	errCount  int
 	spec      int // >0 while speculating a pure arm (diamond merging)
 
-	world    *threadWorld // C20 environment (threads.go)
-	loadPlan *loadPlan    // C17 environment (threads.go)
-	ast      *astLink     // imported syntax trees (astimport.go)
+	world     *threadWorld       // C20 environment (threads.go)
+	loadPlan  *loadPlan          // C17 environment (threads.go)
+	ast       *astLink           // imported syntax trees (astimport.go)
+	execInit  map[*execUnit]bool // executed generated packages whose initialiser ran (exec.go)
+	randCount int
+	curFr     *frame
+	curIn     ssa.Instruction
 
 	intRanges  map[*Term][2]int64
 	decided    map[*Term]bool
@@ -530,11 +534,16 @@ func (p *path) branch(c *Term) bool {
 	}
 	alt := append(append([]int{}, p.decisions...), 0)
 	p.forks = append(p.forks, alt)
+	if forkLog && p.curFr != nil {
+		fmt.Fprintf(os.Stderr, "fork(branch) at %s\n", p.curFr.pos(p.curIn))
+	}
 	p.decisions = append(p.decisions, 1)
 	p.sol.Assert(c)
 	p.pcSize++
 	return true
 }
+
+var forkLog = os.Getenv("VERIF_FORKLOG") != ""
 
 // choose is a structural (non-solver) decision among n alternatives.
 func (p *path) choose(n int) int {
